@@ -222,6 +222,9 @@ func runC44(p *core.Prog, r *core.Report) {
 		r7.Check(ok, core.FuncName(dm)+"#mark-of-an-absent-object", p.Pos(dm.Pos()), "a key removal is reachable without an object record",
 			"deleteMetadata removes nothing for an id that has no object record: the garbage mark a tombstone left for an object this shard never held stays for ever, is listed as removable on every pass and, once a batch-full of such marks sorts first, starves all other garbage")
 	}
+	r8 := r.Rule("C44.R8", "the garbage lister hands every mark of the container to GC (up to the batch limit): no iteration of listGarbageObjects goes on to the next mark without having listed the current one — a mark whose object has no index record (a tombstone's target this shard never indexed, or one the resync skipped as 'already removed') is listed too, it is what removes that object's blob", 1)
+	listerListsEveryMark(p, r, r8)
+	r.Explain += " (R8) every garbage mark is listed, whatever is or is not indexed under its id."
 	r.Explain += " (R7) in deleteMetadata a cursor Delete (the garbage mark's) is reachable from the entry without passing the 'object record found' edge of the first key comparison."
 }
 
@@ -457,4 +460,46 @@ func checkOnlyStopReturns(p *core.Prog, h *core.RuleH, fn *ssa.Function) {
 		ok := stopBlk != nil && (b == stopBlk || stopBlk.Dominates(b))
 		h.Check(ok, core.FuncName(fn)+"#return", p.InstrPos(b.Instrs[len(b.Instrs)-1]), "the worker returns only on the stop signal", "the worker loop can return on a path other than the stop signal: GC stops for good")
 	}
+}
+
+// listerListsEveryMark: shared by C44.R8 and C09.R8. In the loop body of listGarbageObjects (range-over-func: a
+// closure) every 'continue' (return true) has appended the mark's id to the result; only 'break' (return false) skips.
+func listerListsEveryMark(p *core.Prog, r *core.Report, h *core.RuleH) {
+	var body *ssa.Function
+	if lf := p.Func(mb + "listGarbageObjects"); lf != nil {
+		for _, a := range lf.AnonFuncs {
+			if len(a.Params) == 1 && strings.HasSuffix(a.Params[0].Type().String(), "object/id.ID") {
+				body = a
+			}
+		}
+	}
+	if body == nil {
+		r.Fatalf("%s: the loop body of listGarbageObjects not found", h.ID())
+		return
+	}
+	listed := core.Guard{Name: "mark-listed", Comps: []core.Comp{{Result: -1, Kind: core.Executed}}, Instr: func(in ssa.Instruction) bool {
+		st, ok := in.(*ssa.Store)
+		if !ok {
+			return false
+		}
+		fv, ok := st.Addr.(*ssa.FreeVar)
+		if !ok {
+			return false
+		}
+		c, ok := st.Val.(*ssa.Call)
+		return ok && core.CalleeName(c) == "builtin.append" && fv.Name() == "objs"
+	}}
+	core.CheckEffectsFn(p, h, body, core.EffectRule{Min: 1, Guards: []core.Guard{listed}, Effect: func(_ *core.Prog, in ssa.Instruction) (string, bool) {
+		ret, ok := in.(*ssa.Return)
+		if !ok || len(ret.Results) != 1 {
+			return "", false
+		}
+		if c, isC := ret.Results[0].(*ssa.Const); isC {
+			if bv, isB := constBool(c); isB && bv {
+				return "next-mark", true
+			}
+			return "", false
+		}
+		return "next-mark?", true
+	}})
 }
